@@ -250,7 +250,7 @@ pub fn run(ctx: &mut Ctx) {
     }
     let w = match world(ctx, false) { Some(w) => w, None => return };
     let w2 = match world(ctx, false) { Some(w) => w, None => return };
-    let n = if ctx.thorough() { 4 * ctx.nshards } else { ctx.nshards };
+    let n = if ctx.thorough() { 12 * ctx.nshards } else { ctx.nshards };
     for k in 0..n {
         payment_cases(ctx, 1024 * ctx.nshards + k, &w, &w2);
     }
